@@ -29,7 +29,7 @@ class Queue(ManagementHandler):
         return self.http_client.get(
             API_QUEUE % (
                 virtual_host,
-                queue
+                quote(queue, '')
             )
         )
 
@@ -89,7 +89,7 @@ class Queue(ManagementHandler):
         return self.http_client.put(
             API_QUEUE % (
                 quote(virtual_host, ''),
-                queue
+                quote(queue, '')
             ),
             payload=queue_payload)
 
@@ -108,7 +108,7 @@ class Queue(ManagementHandler):
         return self.http_client.delete(API_QUEUE %
                                        (
                                            virtual_host,
-                                           queue
+                                           quote(queue, '')
                                        ))
 
     def purge(self, queue, virtual_host='/'):
@@ -126,7 +126,7 @@ class Queue(ManagementHandler):
         return self.http_client.delete(API_QUEUE_PURGE %
                                        (
                                            virtual_host,
-                                           queue
+                                           quote(queue, '')
                                        ))
 
     def bindings(self, queue, virtual_host='/'):
@@ -144,7 +144,7 @@ class Queue(ManagementHandler):
         return self.http_client.get(API_QUEUE_BINDINGS %
                                     (
                                         virtual_host,
-                                        queue
+                                        quote(queue, '')
                                     ))
 
     def bind(self, queue='', exchange='', routing_key='', virtual_host='/',
@@ -174,8 +174,8 @@ class Queue(ManagementHandler):
         return self.http_client.post(API_QUEUE_BIND %
                                      (
                                          virtual_host,
-                                         exchange,
-                                         queue
+                                         quote(exchange, ''),
+                                         quote(queue, '')
                                      ),
                                      payload=bind_payload)
 
@@ -205,8 +205,9 @@ class Queue(ManagementHandler):
         return self.http_client.delete(API_QUEUE_UNBIND %
                                        (
                                            virtual_host,
-                                           exchange,
-                                           queue,
-                                           properties_key or routing_key
+                                           quote(exchange, ''),
+                                           quote(queue, ''),
+                                           quote(properties_key or
+                                                 routing_key, '')
                                        ),
                                        payload=unbind_payload)
